@@ -339,15 +339,18 @@ func verifySites(c *an.Ctx) {
 		}
 	}
 	c.Count("KEYS", n)
-	c.Floor("KEYS", 6)
+	c.Floor("KEYS", 3)
 }
 
 // loadUnderLock: the load instruction that produced term t ran with the lock held.
 func loadUnderLock(p *an.Program, fn *ssa.Function, t *an.Term, lock string) bool {
 	in, ok := t.Val.(ssa.Instruction)
-	if !ok || in.Parent() != fn {
+	if !ok || in.Parent() == nil {
 		return false
 	}
+	// a fact imported from a callee's return summary carries the callee's load:
+	// the lock state is the one at that load, in the function that performs it
+	fn = in.Parent()
 	lf := p.LockFlowOf(fn)
 	st := lf.StateAt(in, lock)
 	if an.Held(st) {
